@@ -9030,7 +9030,15 @@ bool SoPlexBase<R>::_parseSettingsLine(char* line, const int lineNumber)
                          SPX_SET_MAX_LINE_LEN) == 0)
          {
             int value;
-            value = std::stoi(paramValueString);
+            try
+            {
+               value = std::stoi(paramValueString);
+            }
+            catch(const std::exception&)
+            {
+               SPX_MSG_INFO1(spxout, spxout << "Error parsing settings file: invalid value <" << paramValueString << "> for int parameter <" << paramName << "> in line " << lineNumber << ".\n");
+               return false;
+            }
 
             if(setIntParam((SoPlexBase<R>::IntParam)param, value, false))
                break;
@@ -9068,7 +9076,15 @@ bool SoPlexBase<R>::_parseSettingsLine(char* line, const int lineNumber)
 #ifdef WITH_FLOAT
             value = std::stof(paramValueString);
 #else
-            value = std::stod(paramValueString);
+            try
+            {
+               value = std::stod(paramValueString);
+            }
+            catch(const std::exception&)
+            {
+               SPX_MSG_INFO1(spxout, spxout << "Error parsing settings file: invalid value <" << paramValueString << "> for real parameter <" << paramName << "> in line " << lineNumber << ".\n");
+               return false;
+            }
 #endif
 #endif
 
@@ -9129,7 +9145,15 @@ bool SoPlexBase<R>::_parseSettingsLine(char* line, const int lineNumber)
          unsigned int value;
          unsigned long parseval;
 
-         parseval = std::stoul(paramValueString);
+         try
+         {
+            parseval = std::stoul(paramValueString);
+         }
+         catch(const std::exception&)
+         {
+            SPX_MSG_INFO1(spxout, spxout << "Error parsing settings file for uint parameter <random_seed>.\n");
+            return false;
+         }
 
          if(parseval > UINT_MAX)
          {
@@ -9527,7 +9551,15 @@ bool SoPlexBase<R>::parseSettingsString(char* string)
                          SPX_SET_MAX_LINE_LEN) == 0)
          {
             int value;
-            value = std::stoi(paramValueString);
+            try
+            {
+               value = std::stoi(paramValueString);
+            }
+            catch(const std::exception&)
+            {
+               SPX_MSG_INFO1(spxout, spxout << "Error parsing setting string: invalid value <" << paramValueString << "> for int parameter <" << paramName << ">.\n");
+               return false;
+            }
 
             if(setIntParam((SoPlexBase<R>::IntParam)param, value, false))
                break;
@@ -9564,7 +9596,15 @@ bool SoPlexBase<R>::parseSettingsString(char* string)
 #ifdef WITH_FLOAT
             value = std::stof(paramValueString);
 #else
-            value = std::stod(paramValueString);
+            try
+            {
+               value = std::stod(paramValueString);
+            }
+            catch(const std::exception&)
+            {
+               SPX_MSG_INFO1(spxout, spxout << "Error parsing setting string: invalid value <" << paramValueString << "> for real parameter <" << paramName << ">.\n");
+               return false;
+            }
 #endif
 #endif
 
@@ -9625,7 +9665,15 @@ bool SoPlexBase<R>::parseSettingsString(char* string)
          unsigned int value;
          unsigned long parseval;
 
-         parseval = std::stoul(paramValueString);
+         try
+         {
+            parseval = std::stoul(paramValueString);
+         }
+         catch(const std::exception&)
+         {
+            SPX_MSG_INFO1(spxout, spxout << "Error parsing setting string for uint parameter <random_seed>.\n");
+            return false;
+         }
 
          if(parseval > UINT_MAX)
          {
